@@ -31,6 +31,30 @@ func parseHRS(x string) (cs.VerifTimeout, bool) {
 	return cs.VerifTimeout{Height: h, Round: r, Step: cstypes.RoundStepType(s)}, true
 }
 
+// awaitTock: the next timeout the ticker fires, ignoring the ZERO timeout.  NewTimeoutTicker builds its timer with
+// time.NewTimer(0) and stops it at once; when the runtime is just delivering that first expiry, Stop() answers false while
+// the channel is still empty, the drain finds nothing, and the value arrives later: timeoutRoutine then fires its pending
+// timeout, which is still the zero value (height 0, round 0, step 0).  Seen once in ~300 constructions under load.  The node
+// ignores it (handleTimeout: height 0 is never the node's height; Model.Node does the same), so it is no violation of C01 —
+// the first version of the monitor flagged it as `ticker-fired-unscheduled` (DESIGN 10.4).  No generated schedule is 0.0.0.
+func awaitTock(t cs.TimeoutTicker, wait time.Duration) (cs.VerifTimeout, bool) {
+	deadline := time.Now().Add(wait)
+	for {
+		left := time.Until(deadline)
+		if left <= 0 {
+			return cs.VerifTimeout{}, false
+		}
+		f, ok := cs.VerifAwaitTock(t, left)
+		if !ok {
+			return f, false
+		}
+		if f.Height == 0 && f.Round == 0 && f.Step == 0 {
+			continue
+		}
+		return f, true
+	}
+}
+
 func showHRS(t cs.VerifTimeout) string {
 	return fmt.Sprintf("%d.%d.%d", t.Height, t.Round, int(t.Step))
 }
@@ -59,16 +83,16 @@ func tick(toks []string) string {
 			cs.VerifSchedule(t, x)
 		}
 		if len(seq) == 0 {
-			if _, ok := cs.VerifAwaitTock(t, 100*time.Millisecond); ok {
+			if _, ok := awaitTock(t, 100*time.Millisecond); ok {
 				return "fired=unscheduled"
 			}
 			return "fired=-"
 		}
-		f, ok := cs.VerifAwaitTock(t, 2*time.Second)
+		f, ok := awaitTock(t, 2*time.Second)
 		if !ok {
 			return "fired=none"
 		}
-		if g, again := cs.VerifAwaitTock(t, 250*time.Millisecond); again {
+		if g, again := awaitTock(t, 250*time.Millisecond); again {
 			return "fired=" + showHRS(f) + "+" + showHRS(g)
 		}
 		return "fired=" + showHRS(f)
@@ -77,7 +101,7 @@ func tick(toks []string) string {
 	for _, x := range seq {
 		x.Duration = time.Millisecond
 		cs.VerifSchedule(t, x)
-		if f, ok := cs.VerifAwaitTock(t, 80*time.Millisecond); ok {
+		if f, ok := awaitTock(t, 80*time.Millisecond); ok {
 			out = append(out, showHRS(f))
 		} else {
 			out = append(out, "-")
